@@ -6,6 +6,8 @@ import (
 	"os"
 	"os/exec"
 	"strings"
+	"sync"
+	"sync/atomic"
 	"time"
 
 	"github.com/casbin/casbin/v2"
@@ -211,8 +213,8 @@ func init() {
 		e.EnableAutoSave(false)
 		e.EnableAutoBuildRoleLinks(false)
 		e.RemoveGroupingPolicy("alice", "admin") // memory only
-		_ = e.LoadPolicy()                        // rules are back, links are not rebuilt
-		e.AddGroupingPolicy("bob", "admin")       // binds the role manager again
+		_ = e.LoadPolicy()                       // rules are back, links are not rebuilt
+		e.AddGroupingPolicy("bob", "admin")      // binds the role manager again
 		before, _ := e.Enforce("alice", "d", "read")
 		_ = e.BuildRoleLinks()
 		after, _ := e.Enforce("alice", "d", "read")
@@ -322,6 +324,46 @@ func init() {
 		}
 		return !free, fmt.Sprintf("after a LoadPolicy whose adapter panicked (recovered by the caller): write lock available=%v", free)
 	}
+	// D36: concurrent StopAutoLoadPolicy calls: all see the loader running, the 1-slot channel takes two
+	// sends (one received, one buffered), the third caller blocks forever
+	witnesses["D36-stopautoload-blocks-forever"] = func() (bool, string) {
+		a := mem.New()
+		e, _ := casbin.NewSyncedEnforcer(mustModel(rbacText), a)
+		entered, release := make(chan struct{}, 1), make(chan struct{})
+		var once sync.Once
+		a.OnLoad = func() { once.Do(func() { entered <- struct{}{}; <-release }) }
+		e.StartAutoLoadPolicy(time.Millisecond)
+		select {
+		case <-entered: // the loader goroutine is inside LoadPolicy
+		case <-time.After(2 * time.Second):
+			return false, "the auto-loader never reached the adapter"
+		}
+		var returned int32
+		for i := 0; i < 3; i++ {
+			go func() { e.StopAutoLoadPolicy(); atomic.AddInt32(&returned, 1) }()
+		}
+		time.Sleep(100 * time.Millisecond)
+		close(release)
+		time.Sleep(700 * time.Millisecond)
+		n := atomic.LoadInt32(&returned)
+		return n < 3, fmt.Sprintf("three concurrent StopAutoLoadPolicy calls while the loader is busy: %d returned within 0.8 s", n)
+	}
+	// D35: FilteredAdapter.filtered was a plain bool written inside LoadPolicy, which SyncedEnforcer.LoadPolicy
+	// calls under the read lock: two concurrent reloads race on it. Not observable without the race detector:
+	// the regression is watched by the C12 stress stage (filtered-adapter world); this witness only checks
+	// that the flag still works.
+	witnesses["D35-filtered-flag-plain-write-under-rlock"] = func() (bool, string) {
+		dir, _ := os.MkdirTemp("", "d35")
+		defer os.RemoveAll(dir)
+		path := dir + "/p.csv"
+		_ = os.WriteFile(path, []byte("p, alice, d, read\n"), 0o644)
+		fa := fileadapter.NewFilteredAdapter(path)
+		e, _ := casbin.NewSyncedEnforcer(mustModel(rbacText), fa)
+		was := fa.IsFiltered()
+		_ = e.LoadPolicy()
+		now := fa.IsFiltered()
+		return !(was && !now), fmt.Sprintf("IsFiltered before the first full load=%v after=%v (race itself: C12 stress stage)", was, now)
+	}
 	// D30: a rule whose priority does not parse was a barrier for the priority insertion
 	witnesses["D30-unparsable-priority-barrier"] = func() (bool, string) {
 		text := strings.Replace(strings.Replace(rbacText, "some(where (p.eft == allow))", "priority(p.eft) || deny", 1), "p = sub, obj, act", "p = priority, sub, obj, act, eft", 1)
@@ -374,8 +416,8 @@ func (a *panickingAdapter) LoadPolicy(m model.Model) error {
 	a.armed = true
 	return nil
 }
-func (a *panickingAdapter) SavePolicy(m model.Model) error { return nil }
-func (a *panickingAdapter) AddPolicy(sec string, ptype string, rule []string) error { return nil }
+func (a *panickingAdapter) SavePolicy(m model.Model) error                             { return nil }
+func (a *panickingAdapter) AddPolicy(sec string, ptype string, rule []string) error    { return nil }
 func (a *panickingAdapter) RemovePolicy(sec string, ptype string, rule []string) error { return nil }
 func (a *panickingAdapter) RemoveFilteredPolicy(sec string, ptype string, fieldIndex int, fieldValues ...string) error {
 	return nil
